@@ -3,7 +3,7 @@ import os
 
 import z3
 
-from pyvc import core
+from pyvc import core, loader, loops
 from pyvc.api import M, O, bounded, summary, unit
 from pyvc.core import SV, prove
 from pyvc.stubs import misc as smisc
@@ -27,7 +27,8 @@ EXPLANATION = ("map() is executed symbolically (real Array/Vector/VectorBasis co
                "and its prange loop is checked for write conflicts: two cells write the same pixel only when both contain the "
                "sample point, i.e. on a shared face, which the statement allows.")
 TRUSTED = ["numpy / pint / numba stubs (pyvc/stubs)", "matplotlib not involved (plot=False)"]
-ASSUMPTIONS = ["real arithmetic for floats: 'within rounding' at cell faces is not modelled; exact face points may take either cell",
+ASSUMPTIONS = ["vector layers whose unit is dimensionless-compatible (cm/m) are excluded from the deductive units: recorded finding, bounded native case",
+               "real arithmetic for floats: 'within rounding' at cell faces is not modelled; exact face points may take either cell",
                "non-overlap of cells is not needed: the pixel shows A loaded cell containing the point"]
 
 AXES3 = {"z": ((1, 0, 0), (0, 1, 0), (0, 0, 1)), "x": ((0, 1, 0), (0, 0, 1), (1, 0, 0)), "y": ((0, 0, 1), (1, 0, 0), (0, 1, 0)),
@@ -47,7 +48,12 @@ class MapRun:
         snp.OPAQUE_LINSPACE[0] = True  # pixel-centre formulas are revealed only where a clause is about them
         self.dims, self.ul, self.pos, self.dxc, self.aux, self.data = K.mesh_inputs(ndim=ndim, layers=layers)
         self.n = self.dims.n
-        self.layers = [osy.core.Layer(d, aux=self.aux, **((layer_kwargs or {}).get(k, {}))) for k, d in enumerate(self.data)]
+        self.kinds = tuple(layers)
+        lkw = {k: dict((layer_kwargs or {}).get(k, {})) for k in range(len(self.data))}
+        for k, kind in enumerate(layers):
+            if kind == "vector":
+                lkw[k].setdefault("mode", "vec")
+        self.layers = [osy.core.Layer(d, aux=self.aux, **lkw[k]) for k, d in enumerate(self.data)]
         kw = dict(call_kwargs or {})
         self.uw = self.ul
         self.win = None
@@ -150,6 +156,29 @@ class MapRun:
             fs.append(self.win.magnitude > 0)
         return fs
 
+    def witness(self, c, sz, q, j, i, k):
+        """probe terms of a candidate counterexample: one cell, the origin, the window (position unit), the pixel"""
+        w = {"ndim": self.ndim, "direction": self.direction, "thick": bool(self.thick)}
+        for d in range(self.ndim):
+            w["centre%d" % d] = c[d]
+            w["origin%d" % d] = self.origin_comp(d)
+            w["sample%d" % d] = q[d]
+        w["size"] = sz
+        if self.win is not None:
+            w["window_x"] = self.to_pos_unit(self.win.magnitude)
+            w["window_y"] = self.to_pos_unit(self.win_y.magnitude) if hasattr(self, "win_y") else w["window_x"]
+        if self.thick:
+            w["dz"] = self.to_pos_unit(self.dz.magnitude)
+            w["nz"] = SV.lift(self.kc.nz)
+        w["rx"], w["ry"], w["i"], w["j"], w["k"] = SV.lift(self.rx), SV.lift(self.ry), SV.lift(i), SV.lift(j), SV.lift(k)
+        return w
+
+    def extent_facts(self):
+        fs = [SV.lift(self.rx) >= 1, SV.lift(self.ry) >= 1]
+        if self.thick:
+            fs += [self.dz.magnitude > 0, SV.lift(self.kc.nz) >= 1]
+        return fs
+
     def to_pos_unit(self, x):
         """a returned pixel coordinate (unit of dx) expressed in the position unit"""
         if self.uw is self.ul:
@@ -164,6 +193,8 @@ _CASES = [
     {"label": "3d,zyx,dx_dy,res_dict", "ndim": 3, "direction": "zyx", "window": "dx_dy", "resolution": "dict"},
     {"label": "2d,z,dx_same_unit,res_int", "ndim": 2, "direction": "z", "window": "same_unit", "resolution": "int"},
     {"label": "2d,z,dx_other_unit,res_dict", "ndim": 2, "direction": "z", "window": "other_unit", "resolution": "dict"},
+    {"label": "3d,y,vector+scalar", "ndim": 3, "direction": "y", "window": "same_unit", "resolution": "int", "layers": ("vector", "scalar")},
+    {"label": "2d,z,vector", "ndim": 2, "direction": "z", "window": "same_unit", "resolution": "int", "layers": ("vector",)},
 ]
 
 
@@ -179,13 +210,34 @@ def check_pixel(run, tag=""):
     h = kc.last(0, j, i)
     for k, lay in enumerate(run.out.layers):
         data = lay["data"]
+        m_hit = run.sigma(h)
+        if run.kinds[k] == "vector":
+            # (projection on u, projection on v, in-plane magnitude) of the hit cell's vector
+            prove(tag + "layer%d.shape" % k, core.conj(len(data.data.shape) == 3, SV.lift(data.data.shape[0]) == run.ry,
+                                                     SV.lift(data.data.shape[1]) == run.rx, SV.lift(data.data.shape[2]) == 3))
+            u, v, nn = run.basis()
+            # vector layers in a dimensionless-compatible unit (cm/m, percent): recorded finding, decided by the bounded
+            # native case C03.native.map.vector_scaled_dimensionless_unit (Array * Array converts compatible units)
+            core.assume(~run.data[k].x.unit.same_dim(spint.REGISTRY.dimensionless))
+            W = [SV.lift(getattr(run.data[k], "xyz"[d])._array.elem((m_hit,))) for d in range(run.ndim)]
+            pu = sum((W[d] * u[d] for d in range(run.ndim)), SV.lift(0.0))
+            pv = sum((W[d] * v[d] for d in range(run.ndim)), SV.lift(0.0))
+            want3 = [pu, pv, core.sqrt(pu * pu + pv * pv)]
+            for c in range(3):
+                masked = SV.lift(data.mask.elem((j, i, c)))
+                prove(tag + "layer%d.comp%d.masked_iff_no_cell_passes" % (k, c), masked == (h < 0))
+                val = snp.MaybeNaN.of(data.data.elem((j, i, c)))
+                prove(tag + "layer%d.comp%d.unmasked.value_of_hit_cell" % (k, c),
+                      core.implies(h >= 0, core.conj(~SV.lift(val.isnan), SV.lift(val.val) == want3[c])))
+            prove(tag + "layer%d.unit" % k, lay["unit"] == run.data[k].x.unit)
+            prove(tag + "layer%d.name" % k, lay["name"] == run.data[k].name)
+            continue
         prove(tag + "layer%d.shape" % k, core.conj(len(data.data.shape) == 2, SV.lift(data.data.shape[0]) == run.ry,
                                                  SV.lift(data.data.shape[1]) == run.rx))
         masked = SV.lift(data.mask.elem((j, i)))
         prove(tag + "layer%d.masked_iff_no_cell_passes" % k, masked == (h < 0))
         v = data.data.elem((j, i))
         v = snp.MaybeNaN.of(v)
-        m_hit = run.sigma(h)
         want = SV.lift(run.data[k]._array.elem((m_hit,)))
         prove(tag + "layer%d.unmasked.value_of_hit_cell" % k, core.implies(~masked, core.conj(~SV.lift(v.isnan), SV.lift(v.val) == want)))
         prove(tag + "layer%d.unit" % k, lay["unit"] == run.data[k].unit)
@@ -196,6 +248,7 @@ def check_pixel(run, tag=""):
     # completeness: an arbitrary loaded cell that contains the sample point keeps the pixel unmasked
     wf = window_facts(run, j, i, px, py, tag) if run.win is not None else []
     complete(run, kc, j, i, q, wf, 0, tag)
+    kernel_pre(run, kc, 0, j, i, tag)
     return j, i, px, py
 
 
@@ -219,6 +272,72 @@ def window_facts(run, j, i, px, py, tag=""):
     return [inx, iny, wx > 0, wy > 0]
 
 
+def footprint_axis(g, lo, sp, idx, centre, size, half):
+    """one axis of the footprint argument, over arbitrary reals: a pixel centre on the grid (lo + (idx+1/2)*sp) within
+    `size` of the cell centre, and size <= half, has idx inside the box [trunc((centre-half-lo)/sp), trunc((centre+half-lo)/sp)+1)"""
+    hyp = core.conj(g == lo + (SV.lift(idx) + 0.5) * sp, sp > 0, g - centre <= size, centre - g <= size, size <= half)
+    concl = core.conj(((centre - half) - lo) / sp < SV.lift(idx) + 1, ((centre + half) - lo) / sp >= SV.lift(idx))
+    return core.implies(hyp, concl)
+
+
+@unit("C03", "lemma.footprint_axis", targets=[], cases=[{"label": "reals"}], replay=None)
+def footprint_lemma(case):
+    g, lo, sp, centre, size, half = [core.fresh_real(x) for x in ("g", "lo", "sp", "centre", "size", "half")]
+    idx = core.fresh_int("idx", 0)
+    prove("footprint_axis", footprint_axis(g, lo, sp, idx, centre, size, half))
+
+
+def kernel_pre(run, kc, k, j, i, tag=""):
+    """the kernel's precondition, proved at the call site for an arbitrary selected cell and the arbitrary pixel:
+    (1) the pixel centre handed to the kernel lies on the kernel's own grid (lower edge + (index + 1/2) * spacing along
+    u, v and, for thick maps, n);  (2) hence a cell passing the containment test at the pixel has the pixel inside the
+    index box computed from its projected centre and half-diagonal (|d.u| <= |d|_inf for an axis-aligned u)"""
+    kw = kc.kw
+    n = core.fresh_int("cell_any", 0)
+    core.assume(n < kc.ncells)
+    u, v, nn = run.basis()
+    snp.reveal_linspace(i)
+    snp.reveal_linspace(j)
+    snp.reveal_linspace(k)
+    on_grid = []
+    for c, axis, idx in (("x", u, i), ("y", v, j), ("z", nn, k)):
+        lo, sp = SV.lift(kw["grid_lower_edge_in_new_basis_" + c]), SV.lift(kw["grid_spacing_in_new_basis_" + c])
+        if not any(axis):
+            continue  # 2-D: no normal direction
+        a = list(axis).index(1)
+        g = SV.lift(kc.gp.elem((k, j, i, a)))
+        if c == "z" and not run.thick:
+            fact = core.conj(g == 0, lo == 0, sp > 0)  # the plane itself; the kernel's single depth cell starts at it
+        else:
+            fact = core.conj(g == lo + (SV.lift(idx) + 0.5) * sp, sp > 0)
+        core.lemma(tag + "kernel_pre.pixel_on_kernel_grid." + c, run.unit_facts() + run.extent_facts(), fact)
+        on_grid.append(fact)
+        # the projected centre is the centre's coordinate along that axis
+        proj = SV.lift(kw["cell_positions_in_new_basis_" + c].elem((n,))) == SV.lift(kc.orig[a].elem((n,)))
+        prove(tag + "kernel_pre.projected_centre." + c, proj)
+        on_grid.append(proj)
+    if run.ndim == 2:
+        on_grid.append(core.conj(SV.lift(kw["grid_lower_edge_in_new_basis_z"]) == 0, SV.lift(kw["grid_spacing_in_new_basis_z"]) > 0,
+                                 SV.lift(kw["cell_positions_in_new_basis_z"].elem((n,))) == 0))
+        prove(tag + "kernel_pre.flat_depth", on_grid[-1])
+    goal = footprint_pre(kw, n, (k, j, i), run.ndim)
+    # instances of the real-arithmetic lemma C03.lemma.footprint_axis (proved once over arbitrary reals)
+    size = SV.lift(kw["cell_sizes"].elem((n,)))
+    half = size * core.sqrt(run.ndim)
+    inst = []
+    for c, axis, idx in (("x", u, i), ("y", v, j), ("z", nn, k)):
+        if not any(axis) or (c == "z" and not run.thick):
+            continue
+        a = list(axis).index(1)
+        inst.append(footprint_axis(SV.lift(kc.gp.elem((k, j, i, a))), SV.lift(kw["grid_lower_edge_in_new_basis_" + c]),
+                                   SV.lift(kw["grid_spacing_in_new_basis_" + c]), idx,
+                                   SV.lift(kw["cell_positions_in_new_basis_" + c].elem((n,))), size, half))
+    for t in inst:
+        core.cur().add(core.bterm(t))
+    core.note("instances of lemma C03.lemma.footprint_axis asserted at the call site of evaluate_on_grid")
+    core.lemma(tag + "kernel_pre.footprint", on_grid + inst + core.sqrt_axioms(), goal)
+
+
 def complete(run, kc, j, i, q, win_facts, k, tag):
     """an arbitrary loaded cell m that contains the sample point q survives every pre-selection, passes the kernel's
     test at pixel (k,j,i) and therefore keeps the pixel from being NaN"""
@@ -235,9 +354,10 @@ def complete(run, kc, j, i, q, win_facts, k, tag):
     base = inside + [pos] + list(win_facts) + run.unit_facts()
     r = m
     index_facts = []
+    wit = run.witness(c, sz, q, j, i, k)
     for stage, (mask, count, sel) in enumerate(run.chain):
         keep = SV.lift(snp._to_bool(mask.elem((r,))))
-        core.lemma(tag + "preselect%d.keeps_containing_cell" % stage, base + index_facts + core.sqrt_axioms(), keep)
+        core.lemma(tag + "preselect%d.keeps_containing_cell" % stage, base + index_facts + core.sqrt_axioms(), keep, witness=wit)
         core.assume(keep)  # proved just above (or reported): continue with the surviving cell
         r_new = sel.rank(r)
         ax = sel.rank.axiom
@@ -263,7 +383,8 @@ def complete(run, kc, j, i, q, win_facts, k, tag):
 @unit("C03", "map.thin", targets=[K.MAP + ":map", "osyris.plot.direction:get_direction"], uses=["evaluate_on_grid@map"],
       cases=_CASES, replay=NM.replay_c03, max_paths=64)
 def map_thin(case):
-    run = MapRun(ndim=case["ndim"], direction=case["direction"], window=case["window"], resolution=case["resolution"])
+    run = MapRun(ndim=case["ndim"], direction=case["direction"], window=case["window"], resolution=case["resolution"],
+                 layers=case.get("layers", ("scalar",)))
     if run.raised is not None:
         # raised "No cells were selected": only when no loaded cell is near the plane
         core.cover("raised_no_cells")
@@ -286,6 +407,181 @@ def run_first_mask():
         if mask.ndim == 1:
             return mask, count, sel
     return None
+
+
+# --------------------------------------------------------------------------------------
+# the numba kernel against its contract
+# --------------------------------------------------------------------------------------
+KSPEC = [None]
+
+
+class KernelSpec:
+    """ghost vocabulary of evaluate_on_grid: contains(n, pixel) is the kernel's own test, L(n, pixel) the last cell
+    below n that passes it (-1 if none), defined by  L(0)=-1,  L(n+1) = n if contains(n) else L(n)"""
+
+    def __init__(self, kw):
+        self.kc = K.KernelCall(kw)
+        self.r = None  # Skolem cell of the ghost facts
+
+    def L(self, n, P):
+        return SV(K.LAST(core.term(SV.lift(n)), *[core.term(SV.lift(x)) for x in P]), "i")
+
+    def define(self, n, P):
+        """instantiate the recursive definition at n (and the base case)"""
+        p = core.cur()
+        kc = self.kc
+        p.add(self.L(0, P).t == -1)
+        nn = SV.lift(n)
+        p.add(z3.Implies(nn.t >= 0, self.L(nn + 1, P).t == z3.If(core.bterm(kc.contains(nn, *P)), nn.t, self.L(nn, P).t)))
+
+    def value(self, n, idx):
+        l, P = idx[0], idx[1:]
+        self.define(n, P)
+        h = self.L(n, P)
+        return snp.MaybeNaN(h < 0, SV.lift(self.kc.values.elem((l, h))))
+
+    def ghost_facts(self, n, P):
+        """what the call-site contract assumes about L, as an invariant in n"""
+        kc = self.kc
+        h = self.L(n, P)
+        r = self.r
+        return [("last.range", (h >= -1) & (h < SV.lift(n))),
+                ("last.passes_test", core.implies(h >= 0, kc.contains(h, *P))),
+                ("last.is_last", core.implies(core.conj(r >= 0, r < SV.lift(n), kc.contains(r, *P)), h >= r))]
+
+
+def _k_scalars(env, n):
+    sp = KSPEC[0]
+    P = LCK.point["out"][1:]
+    sp.define(n, P)
+    return sp.ghost_facts(n, P)
+
+
+LCK = loops.LoopContract("evaluate_on_grid.cells", arrays={"out": lambda env, n: (lambda idx: KSPEC[0].value(n, idx))}, scalars=_k_scalars)
+LCK.use_point = True
+loader.LOOP_CONTRACTS[(K.PU, "evaluate_on_grid", 0)] = LCK
+for _ord, _ax in ((1, 1), (2, 2), (3, 3)):
+    loader.LOOP_CONTRACTS[(K.PU, "evaluate_on_grid", _ord)] = loops.PointwiseContract(
+        "evaluate_on_grid.pixels%d" % _ord, LCK, "out", _ax, first=(_ord == 1), pixel_axes=(1, 2, 3))
+
+
+def kernel_inputs(ndim):
+    nc = core.fresh_int("ncells", 0)
+    nl = core.fresh_int("nl", 1)
+    nz, ny, nx = core.fresh_int("nz", 1), core.fresh_int("ny", 1), core.fresh_int("nx", 1)
+    kw = {}
+    for c in "xyz":
+        kw["cell_positions_in_new_basis_" + c] = snp.sym_array("new" + c, (nc,), "float64")
+    for d, c in enumerate("xyz"):
+        kw["cell_positions_in_original_basis_" + c] = snp.sym_array("orig" + c, (nc,), "float64") if d < ndim else None
+    kw["cell_values"] = snp.sym_array("values", (nl, nc), "float64")
+    kw["cell_sizes"] = snp.sym_array("sizes", (nc,), "float64")
+    for c in "xyz":
+        kw["grid_lower_edge_in_new_basis_" + c] = core.fresh_real("lo" + c)
+        sp = core.fresh_real("sp" + c)
+        core.assume(sp > 0)
+        kw["grid_spacing_in_new_basis_" + c] = sp
+    kw["grid_positions_in_original_basis"] = snp.sym_array("gp", (nz, ny, nx, 3), "float64")
+    kw["ndim"] = ndim
+    return kw
+
+
+def footprint_pre(kw, n, P, ndim):
+    """precondition of the kernel (proved at the call site in map()): a cell passing the containment test at a pixel
+    has that pixel inside the index box the kernel derives from its projected centre and half-diagonal"""
+    kc = K.KernelCall(kw)
+    k, j, i = P
+    half = SV.lift(kw["cell_sizes"].elem((n,))) * core.sqrt(ndim)
+    cl = []
+    for c, idx in zip("xyz", (i, j, k)):
+        centre = SV.lift(kw["cell_positions_in_new_basis_" + c].elem((n,)))
+        lo, sp = kw["grid_lower_edge_in_new_basis_" + c], kw["grid_spacing_in_new_basis_" + c]
+        cl.append(((centre - half) - lo) / sp < SV.lift(idx) + 1)
+        cl.append(((centre + half) - lo) / sp >= SV.lift(idx))
+    return core.implies(kc.contains(n, k, j, i), core.conj(*cl))
+
+
+@unit("C03", "evaluate_on_grid", targets=[K.PU + ":evaluate_on_grid"], cases=[{"label": "ndim=%d" % d, "ndim": d} for d in (2, 3)],
+      replay=NM.replay_kernel, max_paths=400)
+def kernel(case):
+    pu = M(K.PU)
+    kw = kernel_inputs(case["ndim"])
+    sp = KSPEC[0] = KernelSpec(kw)
+    sp.r = core.fresh_int("r_any")
+    snp.BOUNDS_HOOK[0] = A.inbounds_prover()  # numba does not check indices: every access is an obligation
+    LCK.fixed_point = None
+    orig_index = loops.LoopInstance.index
+
+    def index_with_pre(self, env):
+        n = orig_index(self, env)
+        if self.c is LCK:
+            core.assume(footprint_pre(kw, n, LCK.point["out"][1:], case["ndim"]))  # the kernel's precondition at (n, P)
+        return n
+
+    loops.LoopInstance.index = index_with_pre
+    try:
+        with LCK.on():
+            out = pu.evaluate_on_grid(**kw)
+    finally:
+        loops.LoopInstance.index = orig_index
+        snp.BOUNDS_HOOK[0] = None
+        snp.WRITE_HOOK[0] = None
+    # post-condition at loop exit: exactly what the call-site contract (mapkit) hands to map()
+    kc = sp.kc
+    N = kc.ncells
+    idx = A.skolem_index(out.shape, base="post")
+    prove("post.shape", core.conj(out.ndim == 4, SV.lift(out.shape[0]) == SV.lift(kc.values.shape[0]), SV.lift(out.shape[1]) == SV.lift(kc.nz),
+                                  SV.lift(out.shape[2]) == SV.lift(kc.ny), SV.lift(out.shape[3]) == SV.lift(kc.nx)))
+    prove("post.value", loops._eq(out.elem(idx), sp.value(N, idx)))
+    for name, cl in sp.ghost_facts(N, LCK.point["out"][1:]):
+        prove("post." + name, cl)
+
+
+@unit("C03", "evaluate_on_grid.prange", targets=[K.PU + ":evaluate_on_grid"], cases=[{"label": "ndim=3", "ndim": 3}], replay=NM.replay_kernel)
+def kernel_race(case):
+    """two distinct iterations of the parallel loop write the same pixel only if both cells pass the containment test
+    there (a shared face, where the statement allows either value); nothing else is written by an iteration"""
+    pu = M(K.PU)
+    kw = kernel_inputs(case["ndim"])
+    sp = KSPEC[0] = KernelSpec(kw)
+    sp.r = core.fresh_int("r_any")
+    snp.BOUNDS_HOOK[0] = lambda k, n: None
+    out_shape = (kw["cell_values"].shape[0],) + tuple(kw["grid_positions_in_original_basis"].shape[:3])
+    P = tuple(core.fresh_int("cell%d" % d, 0) for d in range(4))
+    for c, d in zip(P, out_shape):
+        core.assume(c < d)
+    LCK.fixed_point = {"out": P}
+    logs = []
+    try:
+        for rep in range(2):
+            with LCK.on(mode="race"):
+                try:
+                    pu.evaluate_on_grid(**kw)
+                except loops.RaceIterationDone:
+                    pass
+                logs.append(LCK.race_log[-1] if LCK.race_log else None)
+    finally:
+        LCK.fixed_point = None
+        snp.BOUNDS_HOOK[0] = None
+        snp.WRITE_HOOK[0] = None
+    if logs[0] is None or logs[1] is None:
+        raise core.Undecided("race analysis could not execute one iteration")
+    (n1, w1, env1), (n2, w2, env2) = logs
+    core.assume(n1 != n2)
+    core.cover("two_iterations")
+    kc = sp.kc
+
+    def wrote(ws):
+        t = SV.lift(False)
+        for buf, inv in ws:
+            ok, _ = inv(P)
+            t = t | SV.lift(ok)
+        return t
+
+    a, b = wrote(w1), wrote(w2)
+    prove("writes_pixel_only_if_cell_passes_test[1]", core.implies(a, kc.contains(n1, *P[1:])))
+    prove("writes_pixel_only_if_cell_passes_test[2]", core.implies(b, kc.contains(n2, *P[1:])))
+    prove("conflict_only_on_shared_points", core.implies(a & b, kc.contains(n1, *P[1:]) & kc.contains(n2, *P[1:])))
 
 
 @bounded("C03", "native", "synthesized AMR tilings (2-D/3-D, 1-3 levels, complete / with holes), random origins, axis letters, axis triples, "
